@@ -79,6 +79,7 @@ type usess struct {
 	live       bool
 	chooseTeid bool
 	teids      map[uint16]uint32
+	noDl       bool // the downlink PDRs and FARs have been removed: the session is only deleted from here on
 }
 
 func NewUp4Gen(w *World, seed int64, peers, maxSess int, wide bool) *Up4Gen {
@@ -579,8 +580,34 @@ const (
 	ModAdd    = 9
 )
 
+// RemoveDownlink removes every downlink PDR of the session together with its FAR; the uplink rules stay.
+func (g *Up4Gen) RemoveDownlink(s *usess) {
+	if s.noDl {
+		return
+	}
+
+	r := &SessReq{Hdr: s.up}
+	g.Stats["mod"]++
+
+	for _, f := range s.flows {
+		r.RPDR = append(r.RPDR, f.dl)
+		r.RFAR = append(r.RFAR, f.dlFar)
+	}
+
+	if accepted(g.W.Mod(s.peer, r)) {
+		s.noDl = true
+		g.Stats["mod_rmdl_ok"]++
+	}
+}
+
+func (g *Up4Gen) RemoveDownlinkAny(s interface{ Live() bool }) { g.RemoveDownlink(s.(*usess)) }
+
 // ModifyKind sends a modification of the given kind (one of the Mod* constants; 0..9 as drawn by Modify).
 func (g *Up4Gen) ModifyKind(s *usess, kind int) {
+	if s.noDl {
+		return
+	}
+
 	r := &SessReq{Hdr: s.up}
 	g.Stats["mod"]++
 
